@@ -18,6 +18,10 @@ class Abstain(Exception):
     pass
 
 
+class PathDead(Exception):
+    """the path ends in a panic / an `unreachable`: it produces no state and no output"""
+
+
 # ---------------------------------------------------------------------------------------------------------------
 # polynomials / rational functions over named symbols
 # ---------------------------------------------------------------------------------------------------------------
@@ -307,6 +311,8 @@ class Run:
         self.data_dependent = False
         self.steps = 0
         self.unknown_calls = set()
+        self.lenient_stores = False
+        self.lost_stores = 0
 
     def choose(self, n):
         if self.pos < len(self.script):
@@ -342,7 +348,7 @@ class Run:
                     return None
             elif k == 'downcast':
                 if isinstance(v, Obj) and v.variant is not None and v.variant != e['variant']:
-                    raise Abstain('downcast to a variant the value does not have')
+                    raise PathDead()
             else:
                 return None
         return box, key
@@ -354,6 +360,9 @@ class Run:
     def write(self, loc, p, v):
         s = self.slot(loc, p)
         if s is None:
+            if self.lenient_stores:
+                self.lost_stores += 1
+                return
             raise Abstain('store through an untracked place')
         s[0][s[1]] = v
 
@@ -480,11 +489,13 @@ class Run:
                 bb = self.switch(loc, t)
             elif k == 'call':
                 if t.get('target') is None:
-                    raise Abstain('diverging call')
+                    raise PathDead()
                 args2 = [self.operand(loc, a) for a in t['args']]
                 r = self.call(t['callee'], args2, depth)
                 self.write(loc, t['dest'], r)
                 bb = t['target']
+            elif k == 'unreachable':
+                raise PathDead()
             else:
                 raise Abstain('terminator %s' % k)
 
@@ -708,10 +719,15 @@ def explore(facts, fn_body, mk_args, limit=64):
             raise Abstain('too many paths')
         run = Run(facts, script)
         args = mk_args()
-        res = run.call_fn(fn_body, args)
+        dead = False
+        try:
+            res = run.call_fn(fn_body, args)
+        except PathDead:
+            dead = True
         # siblings of decisions taken beyond the given prefix
         for i in range(len(script), len(run.script)):
             for alt in range(1, run.branching[i]):
                 pending.append(run.script[:i] + [alt])
-        out.append((run, args, res))
+        if not dead:
+            out.append((run, args, res))
     return out
